@@ -185,7 +185,7 @@ func (p *c03) Init(tier string) {
 	}
 }
 
-func (p *c03) NumCases() int { return len(p.cases) + 1 }
+func (p *c03) NumCases() int { return len(p.cases) + 2 }
 
 func (p *c03) sel(c *c03case) *Select {
 	l := &c03Lists[c.list]
@@ -208,6 +208,9 @@ func (p *c03) sel(c *c03case) *Select {
 }
 
 func (p *c03) Describe(i int) any {
+	if i == len(p.cases)+1 {
+		return map[string]any{"kind": "an execution that fails in an aggregate (v = \"n/a\" in row k), the caller repairs the row in place, the same Query is executed again: 5 queries x 4 rows x 4 repairs; the second execution must equal a fresh query"}
+	}
 	if i == len(p.cases) {
 		return map[string]any{"kind": "rows changed in place between two executions of one query: 7 grouped / whole-table queries x every single edit (5 rows x 8 edits of g, h, v); the second execution must equal a fresh query"}
 	}
@@ -346,6 +349,10 @@ func (p *c03) RunCase(i int) *core.CaseResult {
 	defer withUsage(r, "C03")()
 	if i == len(p.cases) {
 		runChangedC03(r)
+		return r
+	}
+	if i == len(p.cases)+1 {
+		runFailedThenRepairedC03(r)
 		return r
 	}
 	c := &p.cases[i]
